@@ -303,10 +303,22 @@ func (i *interpreter) chooseN(conds []*smt.Term) int {
 func (i *interpreter) chooseIndex(idx *smt.Term, n int) int {
 	st := i.st
 	conds := make([]*smt.Term, n+1)
+	limit := uint64(1) << 63
+	if idx.S.W < 64 {
+		limit = uint64(1) << uint(idx.S.W)
+	}
 	for k := 0; k < n; k++ {
+		if uint64(k) >= limit {
+			conds[k] = st.Bool(false)
+			continue
+		}
 		conds[k] = st.Eq(idx, st.Const(idx.S, uint64(k)))
 	}
-	conds[n] = st.BVCmp("bvuge", idx, st.Const(idx.S, uint64(n)))
+	if uint64(n) >= limit {
+		conds[n] = st.Bool(false) // the index type cannot reach n
+	} else {
+		conds[n] = st.BVCmp("bvuge", idx, st.Const(idx.S, uint64(n)))
+	}
 	k := i.chooseN(conds)
 	if k == n || k < 0 {
 		return -1
